@@ -21,7 +21,7 @@ Definition tcode (t : ntype) : N :=
   match t with
   | TElem => gen_ELEMENT_NODE | TText => gen_TEXT_NODE | TCData => gen_CDATA_SECTION_NODE
   | TERef => gen_ENTITY_REFERENCE_NODE | TPI => gen_PROCESSING_INSTRUCTION_NODE | TComment => gen_COMMENT_NODE
-  | TDoc => gen_DOCUMENT_NODE | TFrag => gen_DOCUMENT_FRAGMENT_NODE
+  | TDoc => gen_DOCUMENT_NODE | TFrag => gen_DOCUMENT_FRAGMENT_NODE | TAttr => gen_ATTRIBUTE_NODE
   end.
 
 (** DOMException::ExceptionCode numbers (regenerated from DOMException.hpp) *)
@@ -29,7 +29,8 @@ Definition exc_code (e : exc) : N :=
   match e with
   | INDEX_SIZE => gen_INDEX_SIZE_ERR | HIERARCHY => gen_HIERARCHY_REQUEST_ERR | WRONG_DOC => gen_WRONG_DOCUMENT_ERR
   | INVALID_CHAR => gen_INVALID_CHARACTER_ERR | NO_MOD => gen_NO_MODIFICATION_ALLOWED_ERR
-  | NOT_FOUND => gen_NOT_FOUND_ERR | E_INTERNAL => 99%N
+  | NOT_FOUND => gen_NOT_FOUND_ERR | NOT_SUPPORTED => gen_NOT_SUPPORTED_ERR | NAMESPACE => gen_NAMESPACE_ERR
+  | E_INTERNAL => 99%N
   end.
 
 Record cfg := mkCfg { fix_self : bool; fix_cloneflag : bool }.
@@ -50,11 +51,13 @@ Record node := mkNode {
   n_isfirst : bool;             (* flag FIRSTCHILD *)
   n_ro : bool;                  (* flag READONLY *)
   n_odoc : id;                  (* DOMParentNode::fOwnerDocument (a Document: itself) *)
-  n_docel : option id           (* DOMDocumentImpl::fDocElement *)
+  n_docel : option id;          (* DOMDocumentImpl::fDocElement *)
+  n_ns : str;                   (* fNamespaceURI of DOMElementNSImpl / DOMAttrNSImpl ([] = null) *)
+  n_nsimpl : bool               (* the node is a DOMElementNSImpl / DOMAttrNSImpl object *)
 }.
 Definition heap := list node.
 
-Definition dummy : node := mkNode TText [] [] [] 0 None None None false false false 0 None.
+Definition dummy : node := mkNode TText [] [] [] 0 None None None false false false 0 None [] false.
 Definition nd (h : heap) (i : id) : node := nth i h dummy.
 
 Fixpoint upd (h : heap) (i : id) (f : node -> node) : heap :=
@@ -64,15 +67,15 @@ Fixpoint upd (h : heap) (i : id) (f : node -> node) : heap :=
   | x :: r, S j => x :: upd r j f
   end.
 
-Definition set_val v (n : node) := mkNode (n_ty n) (n_name n) v (n_attrs n) (n_owner n) (n_first n) (n_prev n) (n_next n) (n_owned n) (n_isfirst n) (n_ro n) (n_odoc n) (n_docel n).
-Definition set_attrs v (n : node) := mkNode (n_ty n) (n_name n) (n_val n) v (n_owner n) (n_first n) (n_prev n) (n_next n) (n_owned n) (n_isfirst n) (n_ro n) (n_odoc n) (n_docel n).
-Definition set_owner v (n : node) := mkNode (n_ty n) (n_name n) (n_val n) (n_attrs n) v (n_first n) (n_prev n) (n_next n) (n_owned n) (n_isfirst n) (n_ro n) (n_odoc n) (n_docel n).
-Definition set_first v (n : node) := mkNode (n_ty n) (n_name n) (n_val n) (n_attrs n) (n_owner n) v (n_prev n) (n_next n) (n_owned n) (n_isfirst n) (n_ro n) (n_odoc n) (n_docel n).
-Definition set_prev v (n : node) := mkNode (n_ty n) (n_name n) (n_val n) (n_attrs n) (n_owner n) (n_first n) v (n_next n) (n_owned n) (n_isfirst n) (n_ro n) (n_odoc n) (n_docel n).
-Definition set_next v (n : node) := mkNode (n_ty n) (n_name n) (n_val n) (n_attrs n) (n_owner n) (n_first n) (n_prev n) v (n_owned n) (n_isfirst n) (n_ro n) (n_odoc n) (n_docel n).
-Definition set_owned v (n : node) := mkNode (n_ty n) (n_name n) (n_val n) (n_attrs n) (n_owner n) (n_first n) (n_prev n) (n_next n) v (n_isfirst n) (n_ro n) (n_odoc n) (n_docel n).
-Definition set_isfirst v (n : node) := mkNode (n_ty n) (n_name n) (n_val n) (n_attrs n) (n_owner n) (n_first n) (n_prev n) (n_next n) (n_owned n) v (n_ro n) (n_odoc n) (n_docel n).
-Definition set_docel v (n : node) := mkNode (n_ty n) (n_name n) (n_val n) (n_attrs n) (n_owner n) (n_first n) (n_prev n) (n_next n) (n_owned n) (n_isfirst n) (n_ro n) (n_odoc n) v.
+Definition set_val v (n : node) := mkNode (n_ty n) (n_name n) v (n_attrs n) (n_owner n) (n_first n) (n_prev n) (n_next n) (n_owned n) (n_isfirst n) (n_ro n) (n_odoc n) (n_docel n) (n_ns n) (n_nsimpl n).
+Definition set_attrs v (n : node) := mkNode (n_ty n) (n_name n) (n_val n) v (n_owner n) (n_first n) (n_prev n) (n_next n) (n_owned n) (n_isfirst n) (n_ro n) (n_odoc n) (n_docel n) (n_ns n) (n_nsimpl n).
+Definition set_owner v (n : node) := mkNode (n_ty n) (n_name n) (n_val n) (n_attrs n) v (n_first n) (n_prev n) (n_next n) (n_owned n) (n_isfirst n) (n_ro n) (n_odoc n) (n_docel n) (n_ns n) (n_nsimpl n).
+Definition set_first v (n : node) := mkNode (n_ty n) (n_name n) (n_val n) (n_attrs n) (n_owner n) v (n_prev n) (n_next n) (n_owned n) (n_isfirst n) (n_ro n) (n_odoc n) (n_docel n) (n_ns n) (n_nsimpl n).
+Definition set_prev v (n : node) := mkNode (n_ty n) (n_name n) (n_val n) (n_attrs n) (n_owner n) (n_first n) v (n_next n) (n_owned n) (n_isfirst n) (n_ro n) (n_odoc n) (n_docel n) (n_ns n) (n_nsimpl n).
+Definition set_next v (n : node) := mkNode (n_ty n) (n_name n) (n_val n) (n_attrs n) (n_owner n) (n_first n) (n_prev n) v (n_owned n) (n_isfirst n) (n_ro n) (n_odoc n) (n_docel n) (n_ns n) (n_nsimpl n).
+Definition set_owned v (n : node) := mkNode (n_ty n) (n_name n) (n_val n) (n_attrs n) (n_owner n) (n_first n) (n_prev n) (n_next n) v (n_isfirst n) (n_ro n) (n_odoc n) (n_docel n) (n_ns n) (n_nsimpl n).
+Definition set_isfirst v (n : node) := mkNode (n_ty n) (n_name n) (n_val n) (n_attrs n) (n_owner n) (n_first n) (n_prev n) (n_next n) (n_owned n) v (n_ro n) (n_odoc n) (n_docel n) (n_ns n) (n_nsimpl n).
+Definition set_docel v (n : node) := mkNode (n_ty n) (n_name n) (n_val n) (n_attrs n) (n_owner n) (n_first n) (n_prev n) (n_next n) (n_owned n) (n_isfirst n) (n_ro n) (n_odoc n) v (n_ns n) (n_nsimpl n).
 
 Definition oid_eqb (a b : option id) : bool :=
   match a, b with Some x, Some y => Nat.eqb x y | None, None => true | _, _ => false end.
@@ -166,7 +169,7 @@ Definition v_remove (h : heap) (this old : id) : heap * result :=
          | TElem => (upd h' this (set_docel None), r)
          | _ => (h', r)
          end
-  | TElem | TFrag | TERef => p_remove h this old
+  | TElem | TFrag | TERef | TAttr => p_remove h this old
   | _ => (h, RErr NOT_FOUND)          (* DOMNodeImpl::removeChild *)
   end.
 
@@ -270,7 +273,7 @@ Fixpoint ins (fuel : nat) (cf : cfg) (h : heap) (this new : id) (ref : option id
       else let (h', r) := pins_body (fun h0 kid => ins fuel' cf h0 this kid ref) cf h this new ref in
            if is_err r then (h', r)
            else if ntype_eqb (n_ty (nd h' new)) TElem then (upd h' this (set_docel (Some new)), r) else (h', r)
-    | TElem | TFrag | TERef => pins_body (fun h0 kid => ins fuel' cf h0 this kid ref) cf h this new ref
+    | TElem | TFrag | TERef | TAttr => pins_body (fun h0 kid => ins fuel' cf h0 this kid ref) cf h this new ref
     | _ => (h, RErr HIERARCHY)        (* DOMNodeImpl::insertBefore *)
     end
   end.
@@ -300,7 +303,7 @@ Definition v_replace (cf : cfg) (h : heap) (this new old : id) : heap * result :
     else
       let (h2, r2) := if old_is_elem then p_remove h1 this old else v_remove h1 this old in
       if is_err r2 then (upd h2 this (set_docel saved), r2) else (h2, r2)
-  | TElem | TFrag | TERef => p_replace cf h this new old
+  | TElem | TFrag | TERef | TAttr => p_replace cf h this new old
   | _ => (h, RErr HIERARCHY)         (* DOMNodeImpl::replaceChild *)
   end.
 
@@ -309,39 +312,46 @@ Definition cd_set (h : heap) (n : id) (s : str) : heap * result :=
   if n_ro (nd h n) then (h, RErr NO_MOD) else (upd h n (set_val s), ROk).
 Definition cd_append (h : heap) (n : id) (s : str) : heap * result :=
   if n_ro (nd h n) then (h, RErr NO_MOD) else (upd h n (set_val (n_val (nd h n) ++ s)), ROk).
-Definition cd_delete (h : heap) (n : id) (off cnt : nat) : heap * result :=
+(** XMLSize_t arithmetic: offsets and counts are 64-bit unsigned, sums wrap around *)
+Definition w64 : N := 18446744073709551616%N.
+Definition wadd (a b : N) : N := N.modulo (a + b) w64.
+Definition dlen (h : heap) (n : id) : N := N.of_nat (length (n_val (nd h n))).
+
+Definition cd_delete (h : heap) (n : id) (off cnt : N) : heap * result :=
   if n_ro (nd h n) then (h, RErr NO_MOD)
   else let d := n_val (nd h n) in
-       let len := length d in
-       if len <? off then (h, RErr INDEX_SIZE)
-       else let cnt := if len <? cnt then len else cnt in
-            let cnt := if len <=? off + cnt then len - off else cnt in
-            (upd h n (set_val (firstn off d ++ skipn (off + cnt) d)), ROk).
-Definition cd_insert (h : heap) (n : id) (off : nat) (s : str) : heap * result :=
+       let len := dlen h n in
+       if N.ltb len off then (h, RErr INDEX_SIZE)
+       else let cnt := if N.ltb len cnt then len else cnt in                (* "cap ... to avoid trouble with overflows" *)
+            let cnt := if N.leb len (wadd off cnt) then (len - off)%N else cnt in
+            (upd h n (set_val (firstn (N.to_nat off) d ++ skipn (N.to_nat (off + cnt)) d)), ROk).
+Definition cd_insert (h : heap) (n : id) (off : N) (s : str) : heap * result :=
   if n_ro (nd h n) then (h, RErr NO_MOD)
   else let d := n_val (nd h n) in
-       if length d <? off then (h, RErr INDEX_SIZE)
-       else (upd h n (set_val (firstn off d ++ s ++ skipn off d)), ROk).
-Definition cd_replace (h : heap) (n : id) (off cnt : nat) (s : str) : heap * result :=
+       if N.ltb (dlen h n) off then (h, RErr INDEX_SIZE)
+       else (upd h n (set_val (firstn (N.to_nat off) d ++ s ++ skipn (N.to_nat off) d)), ROk).
+Definition cd_replace (h : heap) (n : id) (off cnt : N) (s : str) : heap * result :=
   if n_ro (nd h n) then (h, RErr NO_MOD)
   else let (h1, r1) := cd_delete h n off cnt in
        if is_err r1 then (h1, r1) else cd_insert h1 n off s.
-(** copyNString(newString, raw + offset, count): copies at most count units, stops at the terminator *)
-Definition cd_substring (h : heap) (n : id) (off cnt : nat) : heap * result :=
+(** copyNString(newString, raw + offset, count): copies at most count units, stops at the terminator.
+    (The repaired code clamps count to the rest of the data before it writes the terminator, F32.) *)
+Definition cd_substring (h : heap) (n : id) (off cnt : N) : heap * result :=
   let d := n_val (nd h n) in
-  if length d <? off then (h, RErr INDEX_SIZE) else (h, RStr (firstn cnt (skipn off d))).
+  if N.ltb (dlen h n) off then (h, RErr INDEX_SIZE)
+  else (h, RStr (firstn (N.to_nat (N.min cnt (dlen h n))) (skipn (N.to_nat off) d))).
 
 (** ---------------------------------------------------------------- node creation *)
 Definition alloc (h : heap) (x : node) : heap * id := (h ++ [x], length h).
 Definition fresh (t : ntype) (doc : id) (nm v : str) (ro : bool) : node :=
-  mkNode t nm v [] doc None None None false false ro doc None.
+  mkNode t nm v [] doc None None None false false ro doc None [] false.
 
 Definition create (h : heap) (doc : id) (t : ntype) (nm v : str) : heap * result :=
   match n_ty (nd h doc) with
   | TDoc =>
     match t with
     | TDoc => (h, RSkip)
-    | TElem | TPI | TERef =>
+    | TElem | TPI | TERef | TAttr =>
       if valid_name nm then
         let (h', i) := alloc h (fresh t doc nm (match t with TPI => v | _ => [] end)
                                       (match t with TERef => true | _ => false end)) in (h', RNode i)
@@ -353,11 +363,13 @@ Definition create (h : heap) (doc : id) (t : ntype) (nm v : str) : heap * result
   end.
 
 (** DOMTextImpl::splitText / DOMCDATASectionImpl::splitText *)
-Definition split_text (cf : cfg) (h : heap) (n : id) (off : nat) : heap * result :=
+Definition split_text (cf : cfg) (h : heap) (n : id) (offN : N) : heap * result :=
   if n_ro (nd h n) then (h, RErr NO_MOD)
   else let d := n_val (nd h n) in
-       if length d <? off then (h, RErr INDEX_SIZE)
-       else match pub_odoc h n with
+       if N.ltb (dlen h n) offN then (h, RErr INDEX_SIZE)
+       else
+       let off := N.to_nat offN in
+       match pub_odoc h n with
             | None => (h, RErr E_INTERNAL)
             | Some doc =>
               let (h1, nt) := alloc h (fresh (n_ty (nd h n)) doc [] (skipn off d) false) in
@@ -412,13 +424,14 @@ Definition clone_shallow (cf : cfg) (h : heap) (n : id) : node :=
   let doc := match pub_odoc h n with Some d => d | None => n end in
   let copied_first := if fix_cloneflag cf then false else n_isfirst x in
   match n_ty x with
-  | TElem => mkNode TElem (n_name x) [] (n_attrs x) doc None None None false false false doc None
-  | TFrag => mkNode TFrag [] [] [] doc None None None false false false doc None
-  | TERef => mkNode TERef (n_name x) [] [] doc None None None false copied_first true doc None
-  | t => mkNode t (n_name x) (n_val x) [] doc None None None false copied_first false doc None
+  | TElem => mkNode TElem (n_name x) [] (n_attrs x) doc None None None false false false doc None (n_ns x) (n_nsimpl x)
+  | TAttr => mkNode TAttr (n_name x) [] [] doc None None None false copied_first false doc None (n_ns x) (n_nsimpl x)
+  | TFrag => mkNode TFrag [] [] [] doc None None None false false false doc None [] false
+  | TERef => mkNode TERef (n_name x) [] [] doc None None None false copied_first true doc None [] false
+  | t => mkNode t (n_name x) (n_val x) [] doc None None None false copied_first false doc None [] false
   end.
 
-Definition set_ro v (n : node) := mkNode (n_ty n) (n_name n) (n_val n) (n_attrs n) (n_owner n) (n_first n) (n_prev n) (n_next n) (n_owned n) (n_isfirst n) v (n_odoc n) (n_docel n).
+Definition set_ro v (n : node) := mkNode (n_ty n) (n_name n) (n_val n) (n_attrs n) (n_owner n) (n_first n) (n_prev n) (n_next n) (n_owned n) (n_isfirst n) v (n_odoc n) (n_docel n) (n_ns n) (n_nsimpl n).
 
 (** cloneChildren: for (mykid = other->getFirstChild(); mykid; mykid = mykid->getNextSibling())
                       appendChild(mykid->cloneNode(true))            -- DOMParentNode::appendChild;
@@ -449,7 +462,7 @@ Fixpoint clone (fuel : nat) (cf : cfg) (h : heap) (n : id) (deep : bool) : heap 
     else
     let (h1, c) := alloc h (clone_shallow cf h n) in
     let t := n_ty (nd h n) in
-    if deep && negb (is_leaf t) then
+    if (deep || ntype_eqb t TAttr) && negb (is_leaf t) then      (* the DOMAttrImpl copy constructor always clones the children *)
       (* an EntityReference clone is made read-only after its children were cloned: setReadOnly(true,true) *)
       let h1 := match t with TERef => upd h1 c (set_ro false) | _ => h1 end in
       let (h4, r4) := clone_kids (S (length h)) (fun h0 m => clone f cf h0 m true) cf h1 c (n_first (nd h n)) in
@@ -479,6 +492,62 @@ Definition get_attribute (h : heap) (e : id) (nm : str) : heap * result :=
   (h, RStr (match attr_get (n_attrs (nd h e)) nm with Some v => v | None => [] end)).
 
 (** ---------------------------------------------------------------- operations *)
+(** ---------------------------------------------------------------- renameNode *)
+Definition set_name v (n : node) := mkNode (n_ty n) v (n_val n) (n_attrs n) (n_owner n) (n_first n) (n_prev n) (n_next n) (n_owned n) (n_isfirst n) (n_ro n) (n_odoc n) (n_docel n) (n_ns n) (n_nsimpl n).
+Definition set_ns v (n : node) := mkNode (n_ty n) (n_name n) (n_val n) (n_attrs n) (n_owner n) (n_first n) (n_prev n) (n_next n) (n_owned n) (n_isfirst n) (n_ro n) (n_odoc n) (n_docel n) v (n_nsimpl n).
+
+(** while (child = getFirstChild()) { removeChild(child); newNode->appendChild(child); } *)
+Fixpoint rename_move (k : nat) (cf : cfg) (h : heap) (old new : id) : heap * result :=
+  match k with
+  | O => (h, RErr E_INTERNAL)
+  | S k' =>
+    match n_first (nd h old) with
+    | None => (h, ROk)
+    | Some c =>
+      let (h1, r1) := p_remove h old c in
+      if is_err r1 then (h1, r1)
+      else let (h2, r2) := ins ins_fuel cf h1 new c None in
+           if is_err r2 then (h2, r2) else rename_move k' cf h2 old new
+    end
+  end.
+
+(** DOMElementImpl::rename, DOMElementNSImpl::rename, DOMAttrImpl::rename, DOMAttrNSImpl::rename (attributes are
+    modelled detached from any element: getOwnerElement() == 0) *)
+Definition rename_node (cf : cfg) (h : heap) (doc n : id) (ns nm : str) : heap * result :=
+  if negb (oid_eqb (pub_odoc h n) (Some doc)) then (h, RErr WRONG_DOC)
+  else
+    let x := nd h n in
+    let is_attr := ntype_eqb (n_ty x) TAttr in
+    if negb (ntype_eqb (n_ty x) TElem || is_attr) then (h, RErr NOT_SUPPORTED)
+    else if n_nsimpl x then
+      (* setName: fName is assigned first, the checks come afterwards *)
+      let h1 := upd h n (set_name nm) in
+      match ns_bind is_attr ns nm with
+      | None => (h1, RErr NAMESPACE)
+      | Some uri => (upd h1 n (set_ns uri), RNode n)
+      end
+    else
+      match ns with
+      | [] => (upd h n (set_name nm), RNode n)          (* no check of the new name at all *)
+      | _ =>
+        (* createElementNS / createAttributeNS: an exception leaves only an unreachable object behind *)
+        if negb (valid_name nm) then (h, RErr INVALID_CHAR)
+        else match ns_bind is_attr ns nm with
+             | None => (h, RErr NAMESPACE)
+             | Some uri =>
+               let (h1, ne) := alloc h (mkNode (n_ty x) nm [] [] doc None None None false false false doc None uri true) in
+               let par := if is_attr then None else parent h1 n in
+               let nxt := next_sib h1 n in
+               let (h2, r2) := match par with Some p => v_remove h1 p n | None => (h1, ROk) end in
+               if is_err r2 then (h2, r2)
+               else let (h3, r3) := rename_move (S (length h)) cf h2 n ne in
+                    if is_err r3 then (h3, r3)
+                    else let (h4, r4) := match par with Some p => v_insert cf h3 p ne nxt | None => (h3, ROk) end in
+                         if is_err r4 then (h4, r4)
+                         else (upd (upd h4 ne (set_attrs (n_attrs (nd h4 n)))) n (set_attrs []), RNode ne)
+             end
+      end.
+
 Definition valid (h : heap) (i : id) : bool := i <? length h.
 Definition ovalid (h : heap) (o : option id) : bool := match o with Some i => valid h i | None => true end.
 
@@ -505,6 +574,8 @@ Definition step_cfg (cf : cfg) (h : heap) (o : op) : heap * result :=
   | OSetAttr e nm v => if valid h e && ntype_eqb (n_ty (nd h e)) TElem then set_attribute h e nm v else (h, RSkip)
   | ORemoveAttr e nm => if valid h e && ntype_eqb (n_ty (nd h e)) TElem then remove_attribute h e nm else (h, RSkip)
   | OGetAttr e nm => if valid h e && ntype_eqb (n_ty (nd h e)) TElem then get_attribute h e nm else (h, RSkip)
+  | ORename d n ns nm =>
+    if valid h d && valid h n && ntype_eqb (n_ty (nd h d)) TDoc then rename_node cf h d n ns nm else (h, RSkip)
   end.
 
 (** the repaired library (fixes/C13-*.patch applied) *)
@@ -518,5 +589,5 @@ Fixpoint run_cfg (cf : cfg) (h : heap) (l : list op) : heap * list result :=
   end.
 
 (** initial heap of a request: [n] empty documents, DOMImplementation::createDocument() *)
-Definition doc_node (i : id) : node := mkNode TDoc [] [] [] i None None None false false false i None.
+Definition doc_node (i : id) : node := mkNode TDoc [] [] [] i None None None false false false i None [] false.
 Definition init_heap (n : nat) : heap := map doc_node (seq 0 n).
